@@ -19,7 +19,7 @@ import random
 
 import front
 
-LEAN_MODULE = "PydjinniModel.Props.C16Program"
+LEAN_MODULE = "PydjinniModel.Props.C16ProgramPos"
 THEOREMS = [
     "Pydjinni.Front.candidates_order",
     "Pydjinni.Front.findFile_first",
@@ -50,6 +50,9 @@ THEOREMS = [
     "Pydjinni.Front.front_ok_iff",
     "Pydjinni.Front.rootVisits_events",
     "Pydjinni.Front.programKeys_rootEvents",
+    "Pydjinni.Front.front_eq_programDiags'",
+    "Pydjinni.Front.front_duplicate_raised'",
+    "Pydjinni.Front.front_eq_violationsOrdered'",
 ]
 LEVEL = "proof"
 
